@@ -446,15 +446,45 @@ def run(chk):
                 problems.append("new key-switch key dimensioned %s" % [sym.show(a) for a in nks[0]["args"][:3]])
         chk.require(not problems, "R4", "init_LweBootstrappingKeyFFT converts every bk[i], i < n, and copies every key-switch cell", where=ini.where,
                     ok="tGswToFFTConvert(&bkFFT[i], &bk->bk[i]) for i<n; lweCopy over N_ext x t x base", bad="; ".join(problems), variant=vn)
-        for name, inner, hi_of in (("tGswToFFTConvert", "tLweToFFTConvert", "kpl"), ("tLweToFFTConvert", "TorusPolynomial_ifft", "k+1")):
+        # every row / component is converted exactly once, source index = destination index: the calls' pointer arguments are
+        # split into (array, offset) and the offsets enumerated over their loop nests for small dimensions
+        from sa import concrete
+        import itertools as _it
+        for name, inner, hi_of, dstf, srcf in (("tGswToFFTConvert", "tLweToFFTConvert", "kpl", "all_samples", "all_sample"),
+                                               ("tLweToFFTConvert", "TorusPolynomial_ifft", "k+1", "a", "a")):
             f2 = v.fn(name)
             p2, _ = summ.pieces(v, f2, hooks=NOINLINE)
             c2 = calls(p2, inner)
-            par = f2.params[2]["n"]
-            hi = P(par, "kpl") if hi_of == "kpl" else sym.add(P(par, "k"), I(1))
-            ok = len(c2) == 1 and len(c2[0]["loops"]) == 1 and rng(c2[0]["loops"][0]) == (ZERO, hi)
+            rs, sr, par = [p_["n"] for p_ in f2.params[:3]]
+            ok, why = bool(c2), "no call of %s" % inner
+            for c_ in c2:
+                (b0, _o0), (b1, _o1) = sym.ptr_split(c_["args"][0]), sym.ptr_split(c_["args"][1])
+                for b_, want_b in ((b0, P(rs, dstf)), (b1, P(sr, srcf))):
+                    if b_ != want_b and sym.root_of(b_) not in (sym.sym(rs), sym.sym(sr), sym.sym(par)):
+                        chk.broken("%s: argument of %s at line %s is not resolved to the parameters: %s" % (name, inner, c_["line"], sym.show(b_)[:100]))
+                if b0 != P(rs, dstf) or b1 != P(sr, srcf) or (hi_of == "kpl" and c_["args"][2] != P(par, "tlwe_params")):
+                    ok, why = False, "call at line %s: %s" % (c_["line"], summ.show_piece(c_)[:120])
+            if ok:
+                if hi_of == "kpl":
+                    Kt, Lt, KPLt = sym.arrow(P(par, "tlwe_params"), "k"), P(par, "l"), P(par, "kpl")
+                    grid = [({Kt: k_, Lt: l_, KPLt: (k_ + 1) * l_}, (k_ + 1) * l_) for k_, l_ in _it.product((1, 2, 3), repeat=2)]
+                else:
+                    grid = [({P(par, "k"): k_}, k_ + 1) for k_ in (1, 2, 3, 4)]
+                for env0, count in grid:
+                    try:
+                        seen = concrete.visited_tuples(c2, lambda c_: (sym.ptr_split(c_["args"][0])[1], sym.ptr_split(c_["args"][1])[1]), env0)
+                    except concrete.NotEvaluable as e:
+                        chk.broken("%s: %s" % (name, e))
+                    dims = ", ".join("%s = %d" % (sym.show(t_).split("->")[-1], x_) for t_, x_ in env0.items())
+                    if any(a_ != b_ for a_, b_ in seen):
+                        ok, why = False, "with %s: source index differs from destination index in %s" % (dims, [x_ for x_ in seen if x_[0] != x_[1]][:3])
+                    elif sorted(a_ for a_, _ in seen) != list(range(count)):
+                        ok, why = False, "with %s the converted indices are %s, expected 0..%d once each" % (dims, sorted(a_ for a_, _ in seen)[:12], count - 1)
+                    if not ok:
+                        break
             chk.require(ok, "R4", "%s covers all %s %s" % (name, hi_of, "rows" if hi_of == "kpl" else "components"), where=f2.where,
-                        ok="%s over [0,%s)" % (inner, sym.show(hi)), bad=[summ.show_piece(c)[:100] for c in c2], variant=vn)
+                        ok="%s at equal source and destination index, every index once (enumerated)" % inner,
+                        bad=[why] + [summ.show_piece(c)[:100] for c in c2], variant=vn)
         # ---------------- R5 kernels
         check_kernels(chk, v, prog)
 
